@@ -57,8 +57,7 @@ def gen(rng, tier):
         subcfg = G.gen_cfg(rng, subp, max_time=200)
         spec["sub"] = {"model": subm, "cfg": subcfg, "file": "mem:sub0.json"}
         m = spec["model"]
-        i = len(m["tasks"])
-        m["tasks"].append({"id": "t%d" % i, "work": 1.0, "sub": {"file": "mem:sub0.json", "unit_s": 60, "remove_abs": rng.random() < 0.5}})
+        i = G.append_task(m, {"id": "t%d" % len(m["tasks"]), "work": 1.0, "sub": {"file": "mem:sub0.json", "unit_s": 60, "remove_abs": rng.random() < 0.5}}, rng)
         if i > 0 and rng.random() < 0.5:
             m["deps"].append([rng.randrange(i), i, 0])
         spec["ranks"] = G.gen_ranks(rng, m)
